@@ -762,9 +762,30 @@ package main
 //@ func lambdaToGo
 //@   trusted
 //@   panics may
+// record literal -> composite literal  Name[targs]{f1: e1, f2: e2}  (fields in the order of the literal)
+//@ func frStructName
+//@   props C03
+//@   ghost M []string
+//@   panics never
+//@   ensures text: result == frec.Name + ite(len(frec.Targs) == 0, "", "[" + join_prefix(M, ", ", len(frec.Targs)) + "]")
+//@   ensures mapped: forall k int :: 0 <= k && k < len(frec.Targs) ==> M[k] == tGo(frec.Targs[k])
+//@   at after call tArgsToGo#0: M = c_M
+
+//@ func rgFVToGo
+//@   props C03
+//@   panics never
+//@   returns fvPair.Name + ": " + toGo(fvPair.Expr)
+
 //@ func rgToGo
-//@   trusted
+//@   props C03
+//@   ghost T []string
+//@   ghost A []string
 //@   panics may
+//@   ensures text: result == rg.RecordType.Name + ite(len(rg.RecordType.Targs) == 0, "", "[" + join_prefix(T, ", ", len(rg.RecordType.Targs)) + "]") + "{" + join_prefix(A, ", ", len(rg.FieldsNV)) + "}"
+//@   ensures targs: forall k int :: 0 <= k && k < len(rg.RecordType.Targs) ==> T[k] == go_type(rg.RecordType.Targs[k])
+//@   ensures fields: forall k int :: 0 <= k && k < len(rg.FieldsNV) ==> A[k] == rg.FieldsNV[k].Name + ": " + toGo(rg.FieldsNV[k].Expr)
+//@   at after call frStructName#0: T = c_M
+//@   at after call slice.Map#0: A = ret
 //@ func reToGo
 //@   trusted
 //@   panics may
